@@ -356,6 +356,7 @@ func (g *gen) MiscSource(prop string, msgs []*Message, fieldFilter func(m *Messa
 	if prop == "C05" && g.mapN < 2 {
 		g.mapN = 2
 	}
+	g.propTag = prop
 	g.header()
 	g.driversOnce()
 	g.decodeCommon()
